@@ -149,7 +149,18 @@ class Run:
         w = self.w
         before_closes = len(w.close_log)
         before_anom = len(w.anomalies)
+        keep_before = len(w.worker._keep)
+        out_before = len(w.socks[st[1]].out) if st[0] == "handle" and st[1] < len(w.socks) else 0
         ok = w.do(st)
+        if ok and st[0] == "handle":
+            # admission to the keep-alive queue: a handler that starts while the queue already holds worker_connections - threads
+            # idle connections answers with Connection: close (that bound is what leaves a slot for connections with requests)
+            th, wc, ka, mr, nl = self.cfgv
+            head = bytes(w.socks[st[1]].out[out_before:]).split(b"\r\n\r\n", 1)[0].lower()
+            if ka > 0 and w.worker.alive and keep_before >= max(0, wc - th) and b"connection: keep-alive" in head:
+                self.fails.append(("kept-beyond-budget", "connection %d was answered with Connection: keep-alive although the keep-alive queue "
+                                   "already held %d idle connection(s) when its handler started (worker_connections - threads = %d)"
+                                   % (st[1], keep_before, max(0, wc - th))))
         self.steps.append(st)
         sn = w.snapshot()
         self.obs += ([1] + enc_snapshot(sn)) if ok else [0]
@@ -189,6 +200,13 @@ class Run:
         if open_socks > bound or sn["nr_conns"] > bound:
             self.fails.append(("bound-exceeded", "%d open connections, nr_conns=%d, worker_connections=%d, listeners=%d"
                                % (open_socks, sn["nr_conns"], wc, nl)))
+        # the budget of idle keep-alive connections: worker_connections - threads, plus at most threads - 1 handlers that passed
+        # the admission test together (it is this budget that leaves a slot for a connection with a request on it)
+        budget = max(0, wc - th) + max(0, th - 1)
+        if len(w.worker._keep) > budget and ka > 0:
+            self.fails.append(("keepalive-budget-exceeded", "the keep-alive queue holds %d idle connections; worker_connections - threads = %d "
+                               "(+ %d for handlers admitted together): with them and one more connection the worker is full of idle "
+                               "connections while every handler thread is free" % (len(w.worker._keep), max(0, wc - th), max(0, th - 1))))
         if w.main_label() in ("select", "wait") and sn["nr_conns"] != open_socks:
             self.fails.append(("accounting", "at the loop head nr_conns=%d but %d accepted connections are open"
                                % (sn["nr_conns"], open_socks)))
@@ -406,6 +424,12 @@ def fixed_schedules():
     # ... and the one that was queued first sends its next request before the time is up
     out.append(((2, 3, 2, 0, 1), two + [("tick",), ("send", 0, ["KA"]), m([("rd", 0)]), m(), m(), m(), ("start", 0), ("handle", 0),
                                         ("finish", 0), ("finlock", 0), m(), m(), m()]))
+    # threads = 2, worker_connections = 3 (one keep-alive slot): two connections served ONE AFTER THE OTHER both ask to be kept - the
+    # second one is told to close
+    out.append(((2, 3, 2, 0, 1), [("connect",), ("connect",), m([("acc", 0)]), m(), m(), m(), m(), m([("acc", 0)]), m(), m(), m(), m(),
+                                  ("send", 0, ["KA"]), m([("rd", 0)]), m(), m(), m(), ("start", 0), ("handle", 0), ("finish", 0), ("finlock", 0),
+                                  m(), m(), m(), ("send", 1, ["KA"]), m([("rd", 1)]), m(), m(), m(), ("start", 1), ("handle", 1),
+                                  ("finish", 1), ("finlock", 1), m(), m(), m(), m()]))
     # two listeners: both report a connection in the same select
     out.append(((1, 1, 2, 0, 2), [("connect",), ("connect",), m([("acc", 0), ("acc", 1)]), m(), m(), m(), m(), m(), m()]))
     return out
